@@ -15,7 +15,7 @@ import (
 )
 
 type c18Op struct {
-	K string  `json:"k"` // add | get | reset | mul | plus
+	K string  `json:"k"` // add | get | reset | mul | plus | addcur (Add(Get())) | addlast (repeat the last sample)
 	V float64 `json:"v,omitempty"`
 }
 
@@ -59,7 +59,7 @@ func genC18(t *rapid.T) c18Case {
 	}
 	n := rapid.IntRange(1, 60).Draw(t, "n")
 	for i := 0; i < n; i++ {
-		k := rapid.SampledFrom([]string{"add", "add", "add", "add", "add", "add", "get", "reset", "mul", "plus"}).Draw(t, "k")
+		k := rapid.SampledFrom([]string{"add", "add", "add", "add", "add", "add", "get", "reset", "mul", "plus", "addcur", "addlast", "addlast"}).Draw(t, "k")
 		op := c18Op{K: k}
 		switch k {
 		case "add":
@@ -147,6 +147,14 @@ func runC18(_ *testing.T, c c18Case) (out kit.Outcome) {
 	tol := func(x float64) float64 { return math.Abs(x)*1e-9 + 1e-300 }
 	for i, op := range c.Ops {
 		before := m.Get()
+		switch {
+		case op.K == "addcur" && before > 0 && c.Type != "var": // (the variance type stores squared units: feeding it back leaves the sample domain)
+			op = c18Op{K: "add", V: before} // a sample exactly equal to the stored value
+		case op.K == "addlast" && count > 0:
+			op = c18Op{K: "add", V: last} // a constant stretch of samples
+		case op.K == "addcur" || op.K == "addlast":
+			op = c18Op{K: "get"}
+		}
 		v, flag, got := c18Apply(m, op)
 		if math.IsNaN(got) || math.IsInf(got, 0) {
 			return kit.Viol(c.Type+":nonfinite", "op %d %+v: Get()=%v", i, op, got)
